@@ -24,12 +24,20 @@ fn main() {
          mutation of the valid stream (invalid tag, other valid tag, length field := 0 / len-k / len+k / 2^32 / \
          2^32+len / 2^61-1 / 2^61 / 2^62 / 2^63 / u64::MAX-k / random, id byte, body byte, truncation, random byte, \
          insert, delete) fed whole, with random reads and one byte per read, in a child process; non-trivial = the \
-         mutated byte belongs to a tag, flags or length field. Distinct by Debug form of the case.",
+         mutated byte belongs to a tag, flags or length field. big:<family>: one message whose frame is exactly \
+         8191/8192/8193/65535/65536/65537/65538/65600/70001/140000 bytes (bytes, bare identifier, quoted string, record \
+         body) between 0-2 ordinary messages, delivered whole, in reads of 7/64/1000/4096/8192/65536 bytes, with single \
+         cuts around the frame end and the 8 KiB / 64 KiB marks, and with random reads; always non-trivial. \
+         illtyped:<family>-i32: the 13 typed decoders instantiated with i32, streams of 2-5 well-framed messages whose \
+         bodies are an i32 or not (records, texts, floats, ...), fed whole, at every single split, with every pair of \
+         cuts around the first ill-typed frame, 3 random cuts, random reads, one byte per read; non-trivial = the \
+         stream contains an ill-typed body. Distinct by Debug form of the case.",
     );
     ctx.assume("Typed (Recon-bodied) decoders are compared with a one-shot parse (swimos_recon::parser::parse_recognize) of the body text, so Recon print/parse fidelity (C09) is trusted here");
     ctx.assume("The wire layout model in the harness (field offsets used to aim mutations and to name invalid tags) is self-checked against every encoded frame");
     ctx.assume("Unlinked(Some(empty)) and Unlinked(None) are one message on the wire (both are written as body length 0)");
-    ctx.assume("After the first Err the stream is over (FramedRead semantics); nothing is asserted about later calls");
+    ctx.assume("After the first Err the stream is over (FramedRead semantics, and every production reader of a typed decoder drops the stream at the first Err); nothing is asserted about later calls, re-synchronisation is only recorded as a class");
+    ctx.assume("Whether a body is of the decoder's type (illtyped sub-checks) is decided by the one-shot parser parse_recognize::<i32>");
     let only_group = std::env::var("C10_GROUP").ok();
     for fam in &fams {
         if let Some(g) = &only_group {
@@ -58,6 +66,35 @@ fn main() {
             |c| child::run_mut(fam, c),
         );
     }
+    // Large frames around the 8 KiB / 64 KiB marks delivered in many reads, every family.
+    for fam in &fams {
+        if only_group.as_ref().map(|g| g != fam.group).unwrap_or(false) || fam.name == "store-initialized" {
+            continue;
+        }
+        let scale: f64 = std::env::var("C10_SCALE").ok().and_then(|s| s.parse().ok()).unwrap_or(1.0);
+        let cases = ((ctx.pick(64, 2_560) as f64 * scale) as u64).max(16);
+        ctx.prop(
+            &format!("big:{}", fam.name),
+            cases,
+            || oracle::arb_big(fam),
+            |c| child::guarded_verdict(|| oracle::check_big(fam, c)),
+        );
+    }
+    // Well-framed bodies of the wrong type for the typed decoders (instantiated with i32).
+    let strict = fams::strict_families();
+    for fam in &strict {
+        if only_group.as_ref().map(|g| g != fam.group).unwrap_or(false) {
+            continue;
+        }
+        let scale: f64 = std::env::var("C10_SCALE").ok().and_then(|s| s.parse().ok()).unwrap_or(1.0);
+        let cases = ((ctx.pick(1_500, 60_000) as f64 * scale) as u64).max(16);
+        ctx.prop(
+            &format!("illtyped:{}", fam.name),
+            cases,
+            || oracle::arb_ill(fam),
+            |c| child::guarded_verdict(|| oracle::check_ill(fam, c)),
+        );
+    }
     ctx.finish();
 }
 
@@ -66,7 +103,12 @@ fn main() {
 fn trace(fams: &[fams::Fam], args: &[String]) {
     use bytes::BytesMut;
     let bare_recognizer = fams::bare_recognizer_family();
-    let fam = if args[0] == "recognizer" { &bare_recognizer } else { fams.iter().find(|f| f.name == args[0]).expect("unknown family") };
+    let strict = fams::strict_families();
+    let fam = if args[0] == "recognizer" {
+        &bare_recognizer
+    } else {
+        fams.iter().chain(strict.iter()).find(|f| f.name == args[0]).expect("unknown family")
+    };
     let hex: String = args[1].chars().filter(|c| c.is_ascii_hexdigit()).collect();
     let stream: Vec<u8> = (0..hex.len() / 2).map(|i| u8::from_str_radix(&hex[2 * i..2 * i + 2], 16).unwrap()).collect();
     let chunks: Vec<usize> = args.get(2).map(|s| s.split(',').filter_map(|x| x.parse().ok()).collect()).unwrap_or_default();
